@@ -369,3 +369,5 @@ func (e *enc) ret(c *Case, res *outcome, rec *recorder, src graph.EdgeSlice, siz
 	e.i(int(us))
 	e.s("}\n")
 }
+
+func ldexp(v float64, k int) float64 { return math.Ldexp(v, k) }
